@@ -5,6 +5,8 @@
 From QV Require Import Lib.Tac Lib.Bytes Lib.Corr Model.Varint Model.PacketNumber Model.Frames
   Proofs.VarintProofs Proofs.PnProofs Proofs.FramesProofs Proofs.FramesTotal Proofs.FramesIter.
 From QV Require Model.Header Proofs.HeaderProofs Proofs.FramesRanges gen.Constants.
+From QV Require Model.TParams Proofs.TParamsProofs.
+From Coq Require Import Permutation.
 Open Scope Z_scope.
 
 (** Every encodable value round-trips, with arbitrary trailing bytes left untouched. *)
@@ -247,3 +249,45 @@ Example C10_constants :
   Frames.MAX_CID_SIZE = Constants.MAX_CID_SIZE /\ Header.MAX_CID = Constants.MAX_CID_SIZE /\
   Z.of_nat Frames.RESET_TOKEN_SIZE = Constants.RESET_TOKEN_SIZE.
 Proof. repeat split; reflexivity. Qed.
+
+(** * Transport parameters (Model/TParams.v: [TransportParameters::write] / [read]) *)
+
+(** [read (write p)] = [p] for every parameter set [p] that satisfies the representation
+    invariants and the semantic validation of [read] (for the reader's side), whatever reserved
+    ("grease") parameter is added and in whatever order the 21 supported identifiers are written
+    ([write_order] is an arbitrary permutation). Defaults are omitted by the writer and restored
+    by the reader; the reserved parameter is ignored. *)
+Theorem C10_tparams_roundtrip : forall server p g order,
+  TParams.wf_tp Constants.MAX_STREAM_COUNT server p = true -> TParams.wf_grease g = true ->
+  Permutation order (seq 0 21) ->
+  exists b, TParams.write p g order = Some b /\
+            TParams.read Constants.MAX_STREAM_COUNT server b = TParams.ROk p.
+Proof. exact (TParamsProofs.tparams_roundtrip Constants.MAX_STREAM_COUNT). Qed.
+Print Assumptions C10_tparams_roundtrip.
+
+(** The reader is total on arbitrary bytes: a parameter set, Malformed or IllegalValue; the loop
+    fuel of the model never runs out. *)
+Theorem C10_tparams_read_total : forall msc server bs,
+  match TParams.read msc server bs with
+  | TParams.ROk _ | TParams.RErr TParams.Malformed | TParams.RErr TParams.Illegal => True
+  | TParams.RErr TParams.OutOfFuel => False
+  end.
+Proof. exact TParamsProofs.read_total. Qed.
+Print Assumptions C10_tparams_read_total.
+
+Example C10_tparams_example :
+  let p := {| TParams.ints := [30000; 1472; 1048576; 65536; 65536; 65536; 100; 3; 3; 25; 5];
+              TParams.dam := true; TParams.mdfs := Some 65535; TParams.iscid := Some [1; 2; 3; 4];
+              TParams.gqb := true; TParams.mad := Some 1000; TParams.odcid := Some [9; 9];
+              TParams.rscid := None; TParams.srt := Some (repeat 7 16);
+              TParams.pa := Some {| TParams.pa_v4 := Some ([127; 0; 0; 1], 443); TParams.pa_v6 := None;
+                                    TParams.pa_cid := [5; 6]; TParams.pa_tok := repeat 8 16 |} |} in
+  let order := [20; 3; 15; 0; 11; 7; 19; 1; 12; 5; 16; 2; 13; 9; 17; 4; 14; 6; 18; 8; 10]%nat in
+  TParams.wf_tp Constants.MAX_STREAM_COUNT false p = true /\
+  TParams.MSC = Constants.MAX_STREAM_COUNT /\
+  match TParams.write p (Some (58, [1; 2; 3])) order with
+  | Some b => TParams.read Constants.MAX_STREAM_COUNT false b = TParams.ROk p /\
+              TParams.read Constants.MAX_STREAM_COUNT true b = TParams.RErr TParams.Illegal
+  | None => False
+  end.
+Proof. vm_compute. repeat split; reflexivity. Qed.
